@@ -84,8 +84,32 @@ static void handler(const Line& t, Out& o) {
   case 6: { // r2 := copy of r
     Reg& src = get(t.at(1));
     Reg g;
-    if (src.u) g.u.reset(new update_theta_sketch(*src.u));
-    else g.c.reset(new compact_theta_sketch(*src.c));
+    // optional 4th token: HOW the copy is made (all mean "r2 := copy of r" for the model):
+    //   0 copy constructor; 1 copy ASSIGNMENT onto a sketch in another state (estimation mode, other lg_k, theta < 1);
+    //   2 move constructor from a temporary copy; 3 move assignment from a temporary copy onto such a sketch
+    const long how = t.size() > 3 ? (long)t.at(3) : 0;
+    if (src.u) {
+      if (how == 0) g.u.reset(new update_theta_sketch(*src.u));
+      else if (how == 2) { update_theta_sketch tmp(*src.u); g.u.reset(new update_theta_sketch(std::move(tmp))); }
+      else {
+        update_theta_sketch::builder b; b.set_lg_k(5); b.set_p(0.5f);
+        g.u.reset(new update_theta_sketch(b.build()));
+        for (int i = 0; i < 300; ++i) g.u->update((uint64_t)(1000003u * (unsigned)i + 17u));   // estimation mode, theta < start
+        if (how == 1) *g.u = *src.u;
+        else { update_theta_sketch tmp(*src.u); *g.u = std::move(tmp); }
+      }
+    } else {
+      if (how == 0) g.c.reset(new compact_theta_sketch(*src.c));
+      else if (how == 2) { compact_theta_sketch tmp(*src.c); g.c.reset(new compact_theta_sketch(std::move(tmp))); }
+      else {
+        update_theta_sketch::builder b; b.set_lg_k(5);
+        update_theta_sketch u = b.build();
+        for (int i = 0; i < 200; ++i) u.update((uint64_t)(7919u * (unsigned)i + 3u));
+        g.c.reset(new compact_theta_sketch(u.compact(how == 1)));
+        if (how == 1) *g.c = *src.c;
+        else { compact_theta_sketch tmp(*src.c); *g.c = std::move(tmp); }
+      }
+    }
     summary(g, o);
     regs[(long)t.at(2)] = std::move(g);
     break; }
